@@ -242,7 +242,8 @@ class Repo:
             # parameters that the reference tree does not have
             self.const_folds = _inl0.fold_new_constants(self.modules)
             self.default_binds = _inl0.bind_unpassed_defaults(self.modules)
-            if self.const_folds or self.default_binds:
+            self.cm_splits = _inl0.split_context_managers(self.modules)
+            if self.const_folds or self.default_binds or self.cm_splits:
                 for m in self.modules.values():
                     m.reset()
         self._index()
